@@ -141,11 +141,13 @@ def all_orders(N):
 
 
 def gen_case(rng, kind=None):
-    kind = kind or rng.choice(["plain", "plain", "plain", "herm_adjoint", "herm_unitary", "herm_any", "herm_any", "raising", "ones"])
+    kind = kind or rng.choice(["plain", "plain", "plain", "herm_adjoint", "herm_unitary", "herm_any", "herm_any", "raising", "ones", "bad_construct"])
     nparam = rng.choice([1, 1, 2, 2, 3])
+    if kind == "plain" and rng.random() < 0.06:
+        nparam = 0  # no order axes at all: reduce() of an empty iterable -> TypeError (modelled)
     nfac = rng.choice([2, 2, 3, 3, 4])
     N = tuple(rng.randint(0, {1: 3, 2: 2, 3: 1}[nparam]) for _ in range(nparam))
-    if sum(N) == 0:
+    if nparam and sum(N) == 0:
         N = (1,) + N[1:]
     herm = kind in ("herm_adjoint", "herm_unitary", "herm_any") or (kind in ("ones", "raising") and rng.random() < 0.3)
     if kind in ("herm_adjoint", "herm_unitary"):
@@ -155,6 +157,8 @@ def gen_case(rng, kind=None):
         dims = [dims[0]] * 3
         if sum(N) < 2:
             N = (2,) + N[1:]
+    if kind == "bad_construct":
+        herm = False
     if herm:
         dims[-1] = dims[0]
     p_zero = rng.choice([0.0, 0.3, 0.5, 0.7])
@@ -215,10 +219,32 @@ def gen_case(rng, kind=None):
             script.append(["pop", f, list(rng.choice(list(tables[f])))])
     if kind == "herm_unitary":  # all product elements in order of increasing total order
         script = [["get", P, list(i)] for i in sorted(prod_idx, key=lambda i: (sum(i[2:]), rng.random()))]
+    # heads of the factors: shape, n_infinite, dimension_names (codes: k < 100 is the default name n_k)
+    names = list(range(nparam))
+    if rng.random() < 0.2:
+        names = [100 + k for k in range(nparam)] if rng.random() < 0.7 else [100 + k for k in range(nparam + 1)]
+    heads = [dict(shape=[dims[f], dims[f + 1]], ninf=nparam, names=list(names)) for f in range(nfac)]
+    if kind == "bad_construct":
+        f = rng.randrange(nfac)
+        what = rng.choice(["ninf", "names", "shape", "shape", "ninf+names"])
+        if "ninf" in what:
+            heads[f]["ninf"] = nparam + 1
+            if what == "ninf":
+                pass  # the default names differ too, but the n_infinite test comes first
+        if "names" in what:
+            heads[f]["names"] = [200 + k for k in range(len(names))] or [200]
+        if what == "shape":
+            if f == 0:
+                heads[0]["shape"][1] += 1
+            else:
+                heads[f]["shape"][0] += 1
+        if what == "ninf" and heads[f]["names"] == names:
+            heads[f]["names"] = list(range(nparam + 1)) if names == list(range(nparam)) else names
     return dict(
         kind=kind,
         nparam=nparam,
         dims=dims,
+        heads=heads,
         N=list(N),
         herm=herm,
         tables=[[[list(k), v] for k, v in t.items()] for t in tables],
@@ -264,11 +290,28 @@ def build_factors(case, log):
             BlockSeries(
                 eval=ev,
                 data={tuple(k): impl_value(v) for k, v in dat},
-                shape=(case["dims"][f], case["dims"][f + 1]),
-                n_infinite=case["nparam"],
+                shape=tuple(case["heads"][f]["shape"]),
+                n_infinite=case["heads"][f]["ninf"],
+                dimension_names=names_of_codes(case["heads"][f]["names"], case["heads"][f]["ninf"]),
+                name="F%d" % f,
             )
         )
     return factors
+
+
+def names_of_codes(codes, ninf):
+    """None (library default n_0, n_1, ...) when the codes are the default ones"""
+    if list(codes) == list(range(ninf)):
+        return None
+    return tuple(("n_%d" % k) if k < 100 else ("x%d" % k) for k in codes) or None
+
+
+def codes_of_names(names):
+    out = []
+    for nm in names:
+        nm = str(nm)
+        out.append(int(nm[2:]) if nm.startswith("n_") else int(nm[1:]))
+    return out
 
 
 def run_impl(case):
@@ -283,6 +326,7 @@ def run_impl(case):
         prod = S.cauchy_dot_product(*factors, hermitian=case["herm"])
     except Exception as e:  # noqa: BLE001
         return dict(construct_error=type(e).__name__)
+    head = dict(shape=[int(x) for x in prod.shape], ninf=int(prod.n_infinite), names=codes_of_names(prod.dimension_names), name=prod.name)
     inner = prod.eval
 
     def logged(*index):
@@ -314,7 +358,7 @@ def run_impl(case):
             else:
                 obs.append(["pop", from_impl(v)])
     keys = {s: sorted(tuple(int(x) for x in k) for k in ser._data) for s, ser in objs.items()}
-    return dict(obs=obs, calls=[[s, list(i)] for s, i in log], keys=[[s, [list(k) for k in ks]] for s, ks in keys.items()])
+    return dict(obs=obs, calls=[[s, list(i)] for s, i in log], keys=[[s, [list(k) for k in ks]] for s, ks in keys.items()], head=head)
 
 
 # ---------------------------------------------------------------------------
@@ -332,13 +376,33 @@ def ctable(tab):
     return "(table %s (Ok SZero))" % clist(items)
 
 
+def cbase(case):
+    descs = []
+    for f in range(len(case["tables"])):
+        h = case["heads"][f]
+        head = "(mkHead %s %s %s %s)" % (cnat(h["shape"][0]), cnat(h["shape"][1]), cnat(h["ninf"]), clist(cnat(k) for k in h["names"]))
+        descs.append("(SBase %s %s)" % (head, ctable(case["tables"][f])))
+    return clist(descs)
+
+
+def coq_terms(case, out):
+    """the main term, and (when the product was built) the term checking its head"""
+    nfac = len(case["tables"])
+    base = cbase(case)
+    factors = clist(cnat(f) for f in range(nfac))
+    herm = "true" if case["herm"] else "false"
+    if "construct_error" in out:
+        return ["check_cdp_valueerror %s %s %s" % (base, factors, herm)]
+    h = out["head"]
+    return [
+        coq_term(case, out),
+        "check_cdp_head %s %s %s %s %s %s %s" % (base, factors, herm, cnat(h["shape"][0]), cnat(h["shape"][1]), cnat(h["ninf"]), clist(cnat(k) for k in h["names"])),
+    ]
+
+
 def coq_term(case, out):
     nfac = len(case["tables"])
-    descs = []
-    for f in range(nfac):
-        head = "(mkHead %s %s %s)" % (cnat(case["dims"][f]), cnat(case["dims"][f + 1]), cnat(case["nparam"]))
-        descs.append("(SBase %s %s)" % (head, ctable(case["tables"][f])))
-    base = clist(descs)
+    base = cbase(case)
     factors = clist(cnat(f) for f in range(nfac))
     herm = "true" if case["herm"] else "false"
     if "construct_error" in out:
@@ -353,6 +417,65 @@ def coq_term(case, out):
     return "check_cdp %s %s %s %s 60%%nat %s %s %s %s %s" % (base, factors, herm, data, script, obs, log_sids, calls, keys)
 
 
+def run_pbo_direct(case, idx, herm):
+    """product_by_order(idx, A, B, hermitian=herm) with operator left at its default, on fresh factors"""
+    from pymablock import series as S
+
+    log = []
+    factors = build_factors(case, log)
+    try:
+        r = ["ok", from_impl(S.product_by_order(tuple(idx), factors[0], factors[1], hermitian=herm))]
+    except BaseException as e:  # noqa: BLE001
+        r = ["exc", type(e).__name__]
+    keys = [[f, sorted([int(x) for x in k] for k in factors[f]._data)] for f in range(2)]
+    return dict(res=r, calls=[[s, list(i)] for s, i in log], keys=keys)
+
+
+def coq_term_pbo(case, idx, herm, out):
+    data = clist(clist("(%s, %s)" % (cidx(k), cval(v)) for k, v in d) for d in case["data"])
+    return "check_pbo %s %s 60%%nat %s %s %s %s %s %s %s" % (
+        cbase(case),
+        data,
+        "true" if herm else "false",
+        cnat(idx[0]),
+        cnat(idx[1]),
+        cidx(idx[2:]),
+        cres(out["res"]),
+        clist("(%s, %s)" % (cnat(s), cidx(i)) for s, i in out["calls"]),
+        clist("(%s, %s)" % (cnat(s), clist(cidx(k) for k in ks)) for s, ks in out["keys"]),
+    )
+
+
+SOPS = {"add": "OpAdd", "sub": "OpSub", "neg": "OpNeg", "dagger": "OpDagger"}
+
+
+def run_sop(op, x, y):
+    """the Python operator on sentinels / numpy arrays -> ('ok', value) | ('err', class)"""
+    from sympy.physics.quantum import Dagger
+
+    a, b = impl_value(x), impl_value(y)
+    try:
+        if op == "add":
+            r = a + b
+        elif op == "sub":
+            r = a - b
+        elif op == "neg":
+            r = -a
+        else:
+            r = Dagger(a)
+        return ["ok", from_impl(r)]
+    except Exception as e:  # noqa: BLE001
+        return ["err", type(e).__name__]
+
+
+def coq_term_sop(op, x, y, out):
+    if out[0] == "ok":
+        exp = "(SOk %s)" % cval(out[1])
+    else:
+        exp = "(SErr %s)" % {"TypeError": "TypeError", "SympifyError": "SympifyError"}.get(out[1], "(UserError 0)")
+    return "check_sop %s %s %s %s" % (SOPS[op], cval(x), cval(y), exp)
+
+
 def nontrivial(case, out):
     """rule: some requested product element needed at least two non-zero terms or a Hermitian shortcut,
     i.e. the eval log has >= 4 factor calls, and some returned value is not a sentinel"""
@@ -365,7 +488,7 @@ def nontrivial(case, out):
 def tie_cauchydot(ctx, ncases=None):
     n = ncases or ctx.n(120, 2400)
     rng = ctx.rng
-    cases, outs, terms = [], [], []
+    cases, outs, terms, owner = [], [], [], []
     dist = {}
     disagreements = []
     for _ in range(n):
@@ -375,21 +498,54 @@ def tie_cauchydot(ctx, ncases=None):
         except Exception as e:  # noqa: BLE001  (harness-level failure: report, do not hide)
             disagreements.append(dict(what="implementation run crashed in the harness: %r" % (e,), input=case))
             continue
+        if "construct_error" in out and out["construct_error"] != "ValueError":
+            disagreements.append(dict(what="cauchy_dot_product raised %s at construction (model: ValueError)" % out["construct_error"], input=case, impl=out))
+        for t in coq_terms(case, out):
+            terms.append(t)
+            owner.append(len(cases))
         cases.append(case)
         outs.append(out)
-        terms.append(coq_term(case, out))
         key = "%s/f%d/p%d/%s" % (case["kind"], len(case["tables"]), case["nparam"], "herm" if case["herm"] else "plain")
         dist[key] = dist.get(key, 0) + 1
-    bad = core.coq_eval_cases("k_cauchydot", HEADER, terms, shard=ctx.n(20, 75), jobs=ctx.n(8, 16))
-    for i in bad:
-        disagreements.append(dict(what="model and implementation differ (values / eval log / cache keys)", input=cases[i], impl=outs[i], model="see replay: coq term false"))
+        if "construct_error" in out:
+            dist["construct_ValueError"] = dist.get("construct_ValueError", 0) + 1
+        # product_by_order called directly (operator=None) on fresh copies of the first two factors
+        if "construct_error" not in out and case["kind"] != "bad_construct" and rng.random() < 0.3:
+            sub = dict(case, tables=case["tables"][:2], data=case["data"][:2], heads=case["heads"][:2])
+            h = sub["heads"]
+            idx = [rng.randrange(h[0]["shape"][0]), rng.randrange(h[1]["shape"][1])] + [rng.randint(0, n_) for n_ in case["N"]]
+            herm = rng.random() < 0.4
+            try:
+                po = run_pbo_direct(sub, idx, herm)
+            except Exception as e:  # noqa: BLE001
+                disagreements.append(dict(what="direct product_by_order run crashed in the harness: %r" % (e,), input=sub))
+                continue
+            terms.append(coq_term_pbo(sub, idx, herm, po))
+            owner.append(len(cases))
+            cases.append(dict(sub, kind="pbo_direct", index=idx, pbo_herm=herm))
+            outs.append(po)
+            dist["pbo_direct"] = dist.get("pbo_direct", 0) + 1
+    # sentinel arithmetic (Sentinel.v): zero/one/array combinations of + - unary- Dagger
+    vals = ["zero", "one", rand_val(rng), rand_val(rng)]
+    for op in SOPS:
+        for x in vals:
+            for y in (vals if op in ("add", "sub") else ["zero"]):
+                so = run_sop(op, x, y)
+                terms.append(coq_term_sop(op, x, y, so))
+                owner.append(len(cases))
+                cases.append(dict(kind="sentinel_op", op=op, x=x, y=y))
+                outs.append(so)
+    dist["sentinel_op"] = len(SOPS) and sum(1 for c in cases if c["kind"] == "sentinel_op")
+    bad = core.coq_eval_cases("k_cauchydot", HEADER, terms, shard=ctx.n(25, 75), jobs=ctx.n(8, 16))
+    for i in sorted({owner[b] for b in bad}):
+        disagreements.append(dict(what="model and implementation differ (%s)" % ("values / eval log / cache keys / product head" if "script" in cases[i] else cases[i]["kind"]), input=cases[i], impl=outs[i], model="see replay: coq term false"))
     seen = set()
     for c, o in zip(cases, outs):
-        if nontrivial(c, o):
+        if "script" in c and nontrivial(c, o):
             seen.add(core.sha(core.canon(c))[:16])
     excs = {}
     for o in outs:
-        for ob in o.get("obs", []):
+        for ob in (o.get("obs", []) if isinstance(o, dict) else []):
             if ob[0] == "get" and ob[1][0] == "exc":
                 excs[ob[1][1]] = excs.get(ob[1][1], 0) + 1
     dist["exceptions_observed"] = excs
@@ -397,7 +553,7 @@ def tie_cauchydot(ctx, ncases=None):
         cases=len(cases),
         nontrivial=len(seen),
         rule="distinct cases whose eval log has >= 4 calls and that returned at least one non-sentinel value",
-        samples=[dict(case=c, impl=o) for c, o in list(zip(cases, outs))[:2]],
+        samples=[dict(case=c, impl=o) for c, o in list(zip(cases, outs)) if "script" in c][:2],
         distribution=dist,
         disagreements=disagreements,
     )
